@@ -36,7 +36,7 @@ ASSUMPTIONS = [
 MIN_NONTRIVIAL = 100
 REQUIRED_COUNTERS = ["gets", "same_object_hits", "reloads_after_modification", "lru_evictions_checked", "toplevel_misses", "vanished_file_exceptions", "failed_compiles_then_fixed"]
 REQUIRED_COUNTERS += ["referring_renders"]
-RULE += " a file-backed Template registered under a second URI by put_template, its file modified twice, both URIs read three times after each change."
+RULE += " a file-backed Template registered under a second URI by put_template, its file modified twice, both URIs read three times after each change; then the file vanishes and the directories hold a file for the second URI."
 REQUIRED_COUNTERS += ["alias_gets"]
 
 _st = {}
@@ -352,6 +352,32 @@ def run_alias(case, res):
 
                 write(1)
                 clock.advance(3)
+                # an entry put under a second URI whose file vanishes before it was ever reloaded
+                fb = os.path.join(root, "b.html")
+                with open(fb, "w") as f:
+                    f.write("B1")
+                os.utime(fb, (clock.now, clock.now))
+                with open(os.path.join(root, "alias2.html"), "w") as f:
+                    f.write("REAL-ALIAS2-FILE")
+                os.utime(os.path.join(root, "alias2.html"), (clock.now, clock.now))
+                clock.advance(3)
+                lk.put_template("/alias2.html", lk.get_template("/b.html"))
+                first = lk.get_template("/alias2.html").render_unicode()
+                os.remove(fb)
+                got2 = [first]
+                for rep in range(3):
+                    res.evaluations += 1
+                    res.count("alias_gets")
+                    try:
+                        got2.append(lk.get_template("/alias2.html").render_unicode())
+                    except ex.TemplateLookupException:
+                        got2.append("TemplateLookupException")
+                    except Exception as e:
+                        got2.append("%s: %s" % (type(e).__name__, e))
+                if got2 != ["B1", "TemplateLookupException", "REAL-ALIAS2-FILE", "REAL-ALIAS2-FILE"]:
+                    res.violate("vanished-alias-entry-kept", "b.html registered as /alias2.html by put_template (module_directory=%s, collection_size=%s), read once, then deleted, root/alias2.html "
+                                "existing: get_template('/alias2.html') gave %r, expected B1, the exception once and then the file of the directory" % (moddir, csize, got2),
+                                witness="put_template entry whose file vanished")
                 lk.put_template("/alias.html", lk.get_template("/a.html"))
                 last = {}
                 for v in (1, 2, 2, 3):
@@ -381,6 +407,31 @@ def run_alias(case, res):
                             if prev is not None and t is not prev:
                                 res.violate("not-same-object", "%s returned a different Template object although nothing changed since the previous call" % what)
                             last[(uri, v)] = t
+                # the file behind the alias vanishes: the first request says so (TemplateLookupException) and drops the
+                # entry, after which the URI means what the directories hold for it
+                with open(os.path.join(root, "alias.html"), "w") as f:
+                    f.write("REAL-ALIAS-FILE")
+                os.utime(os.path.join(root, "alias.html"), (clock.now, clock.now))
+                clock.advance(3)
+                os.remove(fp)
+                got = []
+                for rep in range(3):
+                    res.evaluations += 1
+                    res.count("alias_gets")
+                    try:
+                        got.append(lk.get_template("/alias.html").render_unicode())
+                    except ex.TemplateLookupException:
+                        got.append("TemplateLookupException")
+                    except Exception as e:
+                        got.append("%s: %s" % (type(e).__name__, e))
+                if moddir and got[0] == "TemplateLookupException" and got[1] == got[2] and got[1] in ("REAL-ALIAS-FILE", "A3"):
+                    # (with a module directory the module file written for /alias.html may be newer than the file that now
+                    # backs the URI and be reused: the mechanism of C14/module-file-shared-across-directories, not asserted here)
+                    pass
+                elif got != ["TemplateLookupException", "REAL-ALIAS-FILE", "REAL-ALIAS-FILE"]:
+                    res.violate("vanished-alias-entry-kept", "a.html registered as /alias.html by put_template (module_directory=%s, collection_size=%s), then deleted, root/alias.html existing: three "
+                                "get_template('/alias.html') gave %r, expected the exception once and then the file of the directory" % (moddir, csize, got),
+                                witness="put_template entry whose file vanished")
                 res.nontrivial("alias", moddir, csize)
             finally:
                 shutil.rmtree(base, ignore_errors=True)
